@@ -50,6 +50,29 @@ func HarnessC09Host(st any) {
 	req := &http.Request{Method: method, Host: host, URL: &url.URL{Path: path}}
 	hostMode := s.ref.method(method).hostTrie != nil
 
+	// every hostname route of the set is looked up first with its own substituted request (three rounds, so that
+	// every pooled context has walked other hosts before): nothing of those walks may leak into the request under test
+	for k := 0; k < 3; k++ {
+		for _, rt := range s.set.Routes {
+			if rt.Pattern[0] == '/' || rt.Method != method {
+				continue
+			}
+			ps := []kv{}
+			for _, t := range tokens(rt.Pattern) {
+				if t.kind != tkStatic {
+					ps = append(ps, kv{t.name, "pv"})
+				}
+			}
+			full, _ := substitute(rt.Pattern, ps)
+			slash := 0
+			for full[slash] != '/' {
+				slash++
+			}
+			if _, pc, _ := s.r.Lookup(nil, &http.Request{Method: method, Host: full[:slash], URL: &url.URL{Path: full[slash:]}}); pc != nil {
+				pc.Close()
+			}
+		}
+	}
 	rte, cc, tsr := s.r.Lookup(nil, req)
 	defer func() {
 		if cc != nil {
